@@ -86,7 +86,22 @@ func genShape(repo, out string) error {
 		if fd := findFunc(f, "rangeWrite"); fd != nil {
 			p := callPositions(fd.Body, "Lock", "Unlock", "Next", "fn")
 			l, u, n, cb := p["Lock"], p["Unlock"], p["Next"], p["fn"]
-			facts["id_drawn_under_latch"] = len(l) == 1 && len(u) == 1 && len(n) == 1 && l[0] < n[0] && n[0] < u[0]
+			// ... by a statement of the callback's own statement list (not under a condition: every
+			// block's commit draws its own id)
+			direct := false
+			ast.Inspect(fd.Body, func(x ast.Node) bool {
+				if lit, ok := x.(*ast.FuncLit); ok {
+					for _, st := range lit.Body.List {
+						if as, ok := st.(*ast.AssignStmt); ok && len(as.Rhs) == 1 {
+							if c, ok := as.Rhs[0].(*ast.CallExpr); ok && callName(c) == "Next" {
+								direct = true
+							}
+						}
+					}
+				}
+				return true
+			})
+			facts["id_drawn_under_latch"] = len(l) == 1 && len(u) == 1 && len(n) == 1 && l[0] < n[0] && n[0] < u[0] && direct
 			facts["callback_under_latch"] = len(l) == 1 && len(u) == 1 && len(cb) == 1 && l[0] < cb[0] && cb[0] < u[0]
 		}
 	} else {
